@@ -90,6 +90,16 @@ structure St where
   /-- mocker handles the user keeps in a variable (`m := b.Func(f)`): builder → key → mocker id.  Operations through a kept
       handle bypass the builder's cache rule (no `Canceled()` test, no replacement by a fresh mocker). -/
   handle : Nat → Nat → Option Nat
+  /-- `b.mockers[reflect.TypeOf(instance)]` (builder.go:97 `Struct`): builder → the struct mocker (`*CachedMethodMocker`) it caches.
+      A struct mocker is a *cache owner* like a builder: its `mCache`/`umCache` (cache.go:14) are `cache owner key`, and
+      `keys owner` lists them.  Owner ids of struct mockers start at 100 (builders are numbered from 0). -/
+  scache : Nat → Option Nat
+  nStructs : Nat
+  /-- what `Canceled()` answers for a struct mocker: `CachedMethodMocker` has no `Canceled` of its own, so it is the promoted
+      `baseMocker.Canceled` of the wrapper's own base, which nothing ever sets -/
+  scanceled : Nat → Bool
+  /-- a struct mocker the user keeps in a variable (`sm := b.Struct(x)`) -/
+  shandle : Nat → Option Nat
 
 def init (env : Env) : St where
   text := env.pristine
@@ -103,6 +113,10 @@ def init (env : Env) : St where
   keys := fun _ => []
   nStubs := 0
   handle := fun _ _ => none
+  scache := fun _ => none
+  nStructs := 0
+  scanceled := fun _ => false
+  shandle := fun _ => none
 
 /-! ## internal/patch -/
 
@@ -225,6 +239,15 @@ inductive Op where
   | retH (b key : Nat)
   /-- `m.Cancel()` through the kept handle -/
   | cancelH (b key : Nat)
+  /-- `sm := b.Struct(x)`: look the struct mocker up and keep it -/
+  | keepS (b : Nat)
+  /-- `S.Method(m)[.Origin(&o)].Apply(cb k)` (or `.ExportMethod(m)`), where `S` is the kept struct mocker (`kept`) or a fresh
+      `b.Struct(x)` lookup -/
+  | sapply (b key k : Nat) (origin : Option Nat) (kept : Bool)
+  | sret (b key : Nat) (origin : Option Nat) (kept : Bool)
+  | scancel (b key : Nat) (kept : Bool)
+  /-- `m := S.Method(m)`: keep the method mocker as a handle (used by `applyH`/`retH`/`cancelH`) -/
+  | skeep (b key : Nat) (kept : Bool)
 
 /-- mocker.go:577 `Origin(originFunc)`: `m.origin = originFunc` (stays until Cancel) -/
 def setOrigin (s : St) (id : Nat) : Option Nat → St
@@ -247,23 +270,49 @@ def applyCb (env : Env) (s : St) (id k : Nat) : St × Option Err :=
   | none => (clearWhen (applyImp env s id (.cb k)).1 id, none)
   | some e => ((applyImp env s id (.cb k)).1, some e)
 
+/-- `[.Origin(&o)].Apply(cb k)` on the mocker that cache owner `o` hands out for `key` -/
+def doApply (env : Env) (s : St) (o key k : Nat) (origin : Option Nat) : St × Option Err :=
+  applyCb env (setOrigin (getMocker s o key).1 (getMocker s o key).2 origin) (getMocker s o key).2 k
+
+/-- `[.Origin(&o)].Return(v)` / `.When(a).Return(v)` -/
+def doRet (env : Env) (s : St) (o key : Nat) (origin : Option Nat) : St × Option Err :=
+  if ((setOrigin (getMocker s o key).1 (getMocker s o key).2 origin).mockers (getMocker s o key).2).hasWhen = true then
+    (setOrigin (getMocker s o key).1 (getMocker s o key).2 origin, none)               -- mocker.go:540  m.when.Return(value...)
+  else applyImp env (whens (setOrigin (getMocker s o key).1 (getMocker s o key).2 origin) (getMocker s o key).2) (getMocker s o key).2
+    (.stub (setOrigin (getMocker s o key).1 (getMocker s o key).2 origin).nStubs)
+
+def doCancel (s : St) (o key : Nat) : St := cancelMocker (getMocker s o key).1 (getMocker s o key).2
+
+/-- keep what the lookup returned as the handle for (b, key) -/
+def doKeep (s : St) (o b key : Nat) : St :=
+  { (getMocker s o key).1 with
+    handle := fun b' k' => if b' = b ∧ k' = key then some (getMocker s o key).2 else (getMocker s o key).1.handle b' k' }
+
+/-- builder.go:97 `Struct(instance)`: reuse the cached struct mocker unless `Canceled()` -/
+def getStruct (s : St) (b : Nat) : St × Nat :=
+  match s.scache b with
+  | some o => if s.scanceled o = true then fresh else (s, o)
+  | none => fresh
+where fresh : St × Nat :=
+  ({ s with scache := upd s.scache b (some (100 + s.nStructs)), nStructs := s.nStructs + 1 }, 100 + s.nStructs)
+
+/-- the struct mocker an operation goes through: the kept one, or a fresh `b.Struct(x)` lookup -/
+def structOf (s : St) (b : Nat) (kept : Bool) : Option (St × Nat) :=
+  if kept = true then (s.shandle b).map (fun o => (s, o)) else some (getStruct s b)
+
+/-- builder.go:208 `Reset`: every entry of `b.mockers` is cancelled; the struct mocker entry cancels its children (cache.go:64) -/
+def resetB (s : St) (b : Nat) : St :=
+  match s.scache b with
+  | none => cancelKeys s b (s.keys b)
+  | some o => cancelKeys (cancelKeys s b (s.keys b)) o ((cancelKeys s b (s.keys b)).keys o)
+
 /-- one public-API call; the second component is the panic class, if any -/
 def step (env : Env) (s : St) : Op → St × Option Err
-  | .apply b key k origin =>
-    let r := getMocker s b key
-    applyCb env (setOrigin r.1 r.2 origin) r.2 k
-  | .ret b key origin =>
-    let r := getMocker s b key
-    let s2 := setOrigin r.1 r.2 origin
-    if (s2.mockers r.2).hasWhen then (s2, none)               -- mocker.go:540  m.when.Return(value...)
-    else applyImp env (whens s2 r.2) r.2 (.stub s2.nStubs)
-  | .cancel b key =>
-    let r := getMocker s b key
-    (cancelMocker r.1 r.2, none)
-  | .reset b => (cancelKeys s b (s.keys b), none)
-  | .keep b key =>
-    let r := getMocker s b key
-    ({ r.1 with handle := fun b' k' => if b' = b ∧ k' = key then some r.2 else r.1.handle b' k' }, none)
+  | .apply b key k origin => doApply env s b key k origin
+  | .ret b key origin => doRet env s b key origin
+  | .cancel b key => (doCancel s b key, none)
+  | .reset b => (resetB s b, none)
+  | .keep b key => (doKeep s b b key, none)
   | .applyH b key k =>
     match s.handle b key with
     | none => (s, none)
@@ -278,6 +327,23 @@ def step (env : Env) (s : St) : Op → St × Option Err
     match s.handle b key with
     | none => (s, none)
     | some id => (cancelMocker s id, none)
+  | .keepS b => ({ (getStruct s b).1 with shandle := upd (getStruct s b).1.shandle b (some (getStruct s b).2) }, none)
+  | .sapply b key k origin kept =>
+    match structOf s b kept with
+    | none => (s, none)
+    | some r => doApply env r.1 r.2 key k origin
+  | .sret b key origin kept =>
+    match structOf s b kept with
+    | none => (s, none)
+    | some r => doRet env r.1 r.2 key origin
+  | .scancel b key kept =>
+    match structOf s b kept with
+    | none => (s, none)
+    | some r => (doCancel r.1 r.2 key, none)
+  | .skeep b key kept =>
+    match structOf s b kept with
+    | none => (s, none)
+    | some r => (doKeep r.1 r.2 b key, none)
 
 def run (env : Env) (s : St) : List Op → St
   | [] => s
